@@ -359,8 +359,13 @@ func (g *Gen) genConfig(t *rapid.T) Config {
 	var c Config
 	var b strings.Builder
 	c.ExpSec = []int{600, 30, 120, 3600, 7200, 601}[pickW(t, "exp", 6, 1, 1, 1, 1, 1)]
-	fmt.Fprintf(&b, "SessionExpiration = %q\n", (time.Duration(c.ExpSec) * time.Second).String())
-	fmt.Fprintf(&b, "PostMessageCooloff = \"0s\"\n")
+	exp := time.Duration(c.ExpSec) * time.Second
+	if pickW(t, "expfraction", 5, 1) == 1 {
+		// durations are not always whole seconds
+		exp += time.Duration(rapid.SampledFrom([]int{500, 250, 1, 999}).Draw(t, "expms")) * time.Millisecond
+	}
+	fmt.Fprintf(&b, "SessionExpiration = %q\n", exp.String())
+	fmt.Fprintf(&b, "PostMessageCooloff = %q\n", []string{"0s", "0s", "0s", "0s", "0s", "1500ms", "250ms", "1.25s"}[pickW(t, "cooloff", 1, 1, 1, 1, 1, 1, 1, 1)])
 	if pickW(t, "maxsess", 5, 1) == 1 {
 		c.MaxSess = rapid.IntRange(2, 8).Draw(t, "maxsessn")
 		fmt.Fprintf(&b, "MaxSessions = %d\n", c.MaxSess)
